@@ -2,7 +2,8 @@ SPECIFICATION TraceSpec
 CONSTANTS
   Objs = {"o1", "o2", "o3", "o4"}
   HugeAvailable = FALSE
-  StrictSteps = FALSE
+  StrictSteps = TRUE
+INVARIANT NoLeak
 INVARIANT CyclesDoNotGrow
 POSTCONDITION Accepted
 CHECK_DEADLOCK FALSE
